@@ -191,3 +191,49 @@ def gabor_supports(ctx, R, which=("freq", "time")):
             else:
                 raise AnalysisError("%s: temporal support (%s): %s" % (R, mode, r.get("reason")))
     ctx.floor(R, n, 2 * len(which))
+
+
+def result_names(f):
+    """names of the arrays a response method returns (`return res` / `return start, res` / `return start, res ** 0.5`)"""
+    out = []
+    for r in astq.returns_of(f):
+        v = r.value
+        elts = list(v.elts) if isinstance(v, ast.Tuple) else [v]
+        for e in elts:
+            for x in ast.walk(e):
+                if isinstance(x, ast.Name):
+                    out.append(x.id)
+    return out
+
+
+def bin_stores(prog, f, seed=None):
+    """Role-based view of a per-bin loop: [(loop, loop-variable symbol, store stmt, guard, index E, value E)] for every
+    store `ARR[index] = value` into a returned array inside a `for v in range(...)` loop, with every local name forward-
+    substituted by its definition (so nothing depends on what the locals are called).  The loop variable is renamed BIN."""
+    ev = SymEval(prog, f, seed=seed or {}, inline_props=False).run()
+    rn = set(result_names(f))
+    out = []
+    for loop in [n for n in f.body_nodes() if isinstance(n, ast.For) and isinstance(n.target, ast.Name)]:
+        v = loop.target.id
+        for st in ast.walk(loop):
+            if isinstance(st, (ast.Assign, ast.AugAssign)):
+                tgts = st.targets if isinstance(st, ast.Assign) else [st.target]
+                for t in tgts:
+                    if isinstance(t, ast.Subscript) and isinstance(t.value, ast.Name) and t.value.id in rn and ev.reached(st):
+                        idx = S.subst(ev.eval_at(st, t.slice), {v: S.sym("BIN")})
+                        val = S.subst(ev.eval_at(st, st.value), {v: S.sym("BIN")})
+                        g = S.subst(ev.guard_of(st), {v: S.sym("BIN")})
+                        out.append({"loop": loop, "stmt": st, "guard": g, "index": idx, "value": val, "array": t.value.id,
+                                    "range": S.subst(ev.eval_at(loop, loop.iter), {v: S.sym("BIN")}), "ev": ev})
+    return out
+
+
+def piecewise(stores, pred=None):
+    """value stored at the primary index (the one that is BIN or BIN - start), as one conditional expression over the stores' guards"""
+    prim = [s_ for s_ in stores if (pred(s_) if pred else True)]
+    if not prim:
+        return None
+    val = None
+    for s_ in reversed(prim):
+        val = s_["value"] if val is None else S.cond(s_["guard"], s_["value"], val)
+    return val
